@@ -106,11 +106,10 @@ def shapes(tier):
     if tier == 'thorough':
         A6 = [cbA, cbB, cbA, spS, sp1b, sp1]           # heights 0..5, one symbolic script
         A6c = [cbA, cbB, cbA, sp1, sp1b, sp1]          # the same, concrete
-        # sized: 'stay' with a symbolic script or depth 3 ran for more than 15 minutes per shape
-        out.append({'A': A6c, 'fork': 3, 'B': [sp1, cbB, cbA], 'A_ext': [cbB, cbA], 'cont': 'stay'})
+        # sized: 'stay' with a symbolic script or with depth 3 ran for more than 15 minutes per shape (measured twice)
+        out.append({'A': A6c, 'fork': 4, 'B': [sp1, cbB], 'A_ext': [cbB, cbA, cbB], 'cont': 'stay'})
         out.append({'A': A6, 'fork': 3, 'B': [sp1, cbB, cbA], 'A_ext': [cbB, cbA], 'cont': 'back'})
         out.append({'A': A4, 'fork': 2, 'B': [spS, cbA], 'A_ext': [sp1, cbA], 'cont': 'back'})
-        out.append({'A': A4, 'fork': 1, 'B': [spS], 'A_ext': [sp1], 'cont': 'stay'})
         out.append({'A': A6, 'forced': 3, 'A_ext': [cbB], 'cont': 'forced'})
         out.append({'A': A6, 'forced': 1, 'A_ext': [sp1], 'cont': 'forced-extended'})
         out.append({'A': A6, 'forced': 2, 'A_ext': [], 'cont': 'forced'})
